@@ -521,13 +521,14 @@ type Contract struct {
 	Pure      bool   // no heap writes and no allocation
 	Floats    FloatMode
 	FloatsSet bool
-	Inline    bool // callers inline the body instead of using the contract
-	Trusted   bool // assumed, body not verified (listed as assumption)
-	OvfAssume bool // signed 64-bit overflow assumed absent instead of proved
+	Inline    bool     // callers inline the body instead of using the contract
+	Trusted   bool     // assumed, body not verified (listed as assumption)
+	OvfAssume bool     // signed 64-bit overflow assumed absent instead of proved
+	CallPre   []Clause // obligations at call sites (Name = callee/method name)
 	NoWrite   []string // heap keys this function (transitively) never writes: static frame obligations
-	Function  bool // pure AND deterministic: its result is an uninterpreted function of its arguments and the memory they reach; callable in contracts
-	PureFuncs bool // function-typed parameters are pure total deterministic functions (assumption)
-	NoPanic   bool // callers may rely on: does not panic when requires hold (always true for verified fns)
+	Function  bool     // pure AND deterministic: its result is an uninterpreted function of its arguments and the memory they reach; callable in contracts
+	PureFuncs bool     // function-typed parameters are pure total deterministic functions (assumption)
+	NoPanic   bool     // callers may rely on: does not panic when requires hold (always true for verified fns)
 	Loops     map[int]*LoopSpec
 	Opts      map[string]string
 	Ghost     []string
@@ -543,10 +544,10 @@ type SpecFunc struct {
 }
 
 type Lemma struct {
-	Name string
-	Text string
-	E    Expr
-	Uses []string
+	Name   string
+	Text   string
+	E      Expr
+	Uses   []string
 	Floats FloatMode
 	BV     bool
 }
@@ -591,7 +592,7 @@ func (cf *ContractFile) parse(src, file string) error {
 	}
 	keywords := map[string]bool{"func": true, "extern": true, "requires": true, "ensures": true, "modifies": true, "pure": true,
 		"floats": true, "mode": true, "inline": true, "trusted": true, "ovf": true, "loop": true, "lemma": true, "spec": true,
-		"opt": true, "ghost": true, "uses": true, "nopanic": true, "purefuncs": true, "function": true, "nowrite": true}
+		"opt": true, "ghost": true, "uses": true, "nopanic": true, "purefuncs": true, "function": true, "nowrite": true, "callpre": true}
 	var clauses []string
 	for _, ln := range lines {
 		if ln == "" {
@@ -770,6 +771,19 @@ func (c *Contract) addClause(kw, rest string) error {
 				c.NoWrite = append(c.NoWrite, k)
 			}
 		}
+	case "callpre":
+		// callpre <name>: E  — E must hold (in the caller's scope) at every call whose callee or
+		// method name is <name>
+		i := strings.Index(rest, ":")
+		if i < 0 {
+			return fmt.Errorf("callpre needs 'name: expr'")
+		}
+		cl, err := parseClause(rest[i+1:])
+		if err != nil {
+			return err
+		}
+		cl.Name = strings.TrimSpace(rest[:i])
+		c.CallPre = append(c.CallPre, cl)
 	case "function":
 		c.Function = true
 		c.Pure = true
